@@ -807,6 +807,8 @@ class Interp(object):
                     if not isinstance(b, ClassVal) and isinstance(b, type) and issubclass(b, c):
                         return True
             return c is object
+        if isinstance(v, SymSlice):
+            return c in (slice, object)
         if isinstance(v, SymInt):
             import numpy as np
             return c in (int, object) or (v.__class__ is c)
@@ -1474,6 +1476,9 @@ class Interp(object):
         if is_sym(l) or is_sym(r):
             if l is True or l is False or r is True or r is False:
                 return l == r
+            other = r if is_sym(l) else l
+            if other is Ellipsis or isinstance(other, (type, ClassVal, str, bytes, tuple)):
+                return False
             raise Unsupported("`is` on symbolic values")
         return l is r
 
